@@ -323,6 +323,19 @@ fn oracle_bridge_iff(j: &[ClsD], b2s: &[(Ref3, Ref3)]) -> Ans {
 	}
 	Ans::pass()
 }
+/// the (bridge, delegate) pairs of the property text in the order of the method table, carried over by `inter`; a reference
+/// produced twice keeps its first position and gets the later delegate (what collecting into a map does). `None`: `inter` failed
+fn own_pairs(j: &[ClsD], inter: &dyn Fn(&Ref3) -> Option<Ref3>) -> Option<Vec<(Ref3, Ref3)>> {
+	let x = idx_of(j);
+	let mut out: Vec<(Ref3, Ref3)> = Vec::new();
+	for b in x.methods.keys() {
+		let Some(s) = x.calls.get(b).and_then(|c| c.first()) else { continue };
+		if !is_bridge_pair(&x, b, s) { continue; }
+		let (bi, si) = (inter(b)?, inter(s)?);
+		match out.iter_mut().find(|p| p.0 == bi) { Some(p) => p.1 = si, None => out.push((bi, si)) }
+	}
+	Some(out)
+}
 fn oracle_higher(j: &[ClsD], b2s: &[(Ref3, Ref3)], s2b: &[(Ref3, Ref3)]) -> Ans {
 	let x = idx_of(j);
 	let mut want: Vec<(Ref3, Ref3)> = Vec::new();
@@ -399,7 +412,7 @@ fn exec(op: &str, args: &[Sexp]) -> Ans {
 				}
 			}
 		}
-		("add-specialized" | "oracle-only-delegate", [j, libs, cal, m]) => {
+		("add-specialized" | "oracle-only-delegate" | "oracle-delegate-named", [j, libs, cal, m]) => {
 			let c = tr!(ctx_from(j, libs, cal, m));
 			let all: Vec<&JarD> = std::iter::once(&c.jar).chain(c.libs.iter()).collect();
 			if !acyclic(&all) { return Ans::Skip("cyclic".into()); }
@@ -486,7 +499,9 @@ fn rel_types(r: &mut Rng, h: &Hier, kind: usize) -> (String, String, &'static st
 			// erased to a bound: an ancestor (possibly several levels up, possibly outside the jar)
 			let subs: Vec<&String> = main.iter().copied().filter(|c| !h.ancestors(c).is_empty()).collect();
 			if subs.is_empty() { return (obj(JLO), obj(&any_main(r)), "erased-to-object"); }
-			let s = (*r.pick(&subs)).clone();
+			// half of the time the class with the most ancestors (deep chains and diamonds), any of its ancestors as the bound
+			let deepest = subs.iter().copied().max_by_key(|c| h.ancestors(c).len()).unwrap_or(subs[0]);
+			let s = if r.chance(1, 2) { deepest.clone() } else { (*r.pick(&subs)).clone() };
 			let a = h.ancestors(&s);
 			(obj(r.pick(&a[..]).as_str()), obj(&s), "erased-to-bound")
 		}
@@ -500,6 +515,8 @@ fn rel_types(r: &mut Rng, h: &Hier, kind: usize) -> (String, String, &'static st
 		_ => (obj(&any_main(r)), obj("ext/Other"), "specialized-outside-jar"),
 	}
 }
+
+fn s_is_lib(n: &str) -> bool { n.starts_with("lib/") || n.starts_with("ext/") }
 
 fn plain_method(name: &str, desc: &str, flags: usize) -> MetD { MetD { name: name.to_owned(), desc: desc.to_owned(), flags, code: Some(vec![InsD::Other]) } }
 
@@ -547,9 +564,14 @@ fn gen_world(r: &mut Rng, out: &mut Out, edge: bool) -> World {
 			_ => Some(JLO.to_owned()),
 		};
 		let mut itfs = Vec::new();
-		for _ in 0..r.below(3) {
+		for _ in 0..*r.pick(&[0usize, 1, 2, 2, 3]) {
 			let c = match r.below(6) { 0 if !lib_names.is_empty() => r.pick(&lib_names).clone(), 1 => "ext/Itf".to_owned(), _ if !earlier.is_empty() => r.pick(earlier).clone(), _ => continue };
 			if !itfs.contains(&c) || r.chance(1, 10) { itfs.push(c); }
+		}
+		// diamonds in which the shared super type is listed FIRST: `T extends S implements M`, `S implements M, Bound` — an ancestor
+		// walk that stops at the first already-seen parent of `S` never reaches `Bound`
+		if let Some(sp) = sup.as_ref().and_then(|s| h.parents.get(s)).filter(|ps| ps.len() >= 2 && !s_is_lib(&ps[0])) {
+			{ let shared = sp[0].clone(); itfs.retain(|x| *x != shared); itfs.insert(0, shared); out.stats.hit("hier:diamond-shared-parent-first"); }
 		}
 		let ps: Vec<String> = sup.iter().filter(|s| *s != JLO).cloned().chain(itfs.iter().cloned()).collect();
 		h.names.push(name.clone());
@@ -809,7 +831,151 @@ fn emit_world(out: &mut Out, w: &World, map: Sexp) {
 	out.op("oracle-bridge-iff", &[j.clone()]);
 	out.op("oracle-higher", &[j.clone()]);
 	out.op("add-specialized", &[j.clone(), libs.clone(), cal.clone(), map.clone()]);
-	out.op("oracle-only-delegate", &[j, libs, cal, map]);
+	out.op("oracle-only-delegate", &[j.clone(), libs.clone(), cal.clone(), map.clone()]);
+	out.op("oracle-delegate-named", &[j, libs, cal, map]);
+}
+
+// ------------------------------------------------------------------ fixed scenario worlds (seed independent, emitted first)
+
+/// a hierarchy shape: `(class, super class (None = java/lang/Object), interfaces)` in jar order; `T` is the specialized type
+type ShapeD = (&'static str, &'static [(&'static str, Option<&'static str>, &'static [&'static str])]);
+
+/// Hierarchies above the specialized type `T`. The order of the parent lists is the point: `get_ancestors` is a work list
+/// without a visited set, shared super types are met several times and in different positions of a parent list.
+const ANCESTOR_SHAPES: &[ShapeD] = &[
+	("chain", &[("T", Some("S"), &[]), ("S", None, &["Bound"]), ("Bound", None, &[])]),
+	// `T extends S implements M`, `S implements M, Bound`: the shared `M` is listed before the path to `Bound`
+	("diamond-shared-first", &[("T", Some("S"), &["M"]), ("S", None, &["M", "Bound"]), ("M", None, &[]), ("Bound", None, &[])]),
+	("diamond-shared-last", &[("T", Some("S"), &["M"]), ("S", None, &["Bound", "M"]), ("M", None, &[]), ("Bound", None, &[])]),
+	("diamond-shared-has-parent", &[("T", Some("S"), &["M"]), ("S", None, &["M", "Bound"]), ("M", None, &["MTop"]), ("MTop", None, &[]), ("Bound", None, &["BTop"]), ("BTop", None, &[])]),
+	// `Root` is reached through both interfaces, in either listing order
+	("twice-through-two-interfaces", &[("T", None, &["I1", "I2"]), ("I1", None, &["Root"]), ("I2", None, &["Root", "Bound"]), ("Root", None, &["Top"]), ("Top", None, &[]), ("Bound", None, &[])]),
+	("twice-through-two-interfaces-swapped", &[("T", None, &["I2", "I1"]), ("I1", None, &["Root"]), ("I2", None, &["Root", "Bound"]), ("Root", None, &["Top"]), ("Top", None, &[]), ("Bound", None, &[])]),
+	("twice-through-two-interfaces-bound-first", &[("T", None, &["I2", "I1"]), ("I1", None, &["Root"]), ("I2", None, &["Bound", "Root"]), ("Root", None, &["Top"]), ("Top", None, &[]), ("Bound", None, &[])]),
+	("depth3-class-chain", &[("T", Some("S"), &[]), ("S", Some("R"), &[]), ("R", Some("Q"), &[]), ("Q", None, &[])]),
+	("depth3-interface-chain", &[("T", None, &["I"]), ("I", None, &["J"]), ("J", None, &["K"]), ("K", None, &[])]),
+	("depth3-mixed", &[("T", Some("S"), &["I"]), ("S", Some("R"), &["J"]), ("R", None, &["K"]), ("I", None, &["J"]), ("J", None, &["K"]), ("K", None, &[])]),
+	// a class implementing the same interface as its super-super class
+	("same-interface-as-super-super-first", &[("T", Some("S"), &["M"]), ("S", Some("R"), &[]), ("R", None, &["M", "Bound"]), ("M", None, &[]), ("Bound", None, &[])]),
+	("same-interface-as-super-super-last", &[("T", Some("S"), &["M"]), ("S", Some("R"), &[]), ("R", None, &["Bound", "M"]), ("M", None, &[]), ("Bound", None, &[])]),
+	("interface-listed-before-super-path", &[("T", Some("S"), &["M", "N"]), ("S", None, &["N", "M", "Bound"]), ("M", None, &[]), ("N", None, &[]), ("Bound", None, &[])]),
+	// an ancestor outside the jar makes every jar class an acceptable erased type
+	("ancestor-outside-jar", &[("T", Some("S"), &[]), ("S", Some("ext/Lib"), &["Bound"]), ("Bound", None, &[])]),
+	("ancestor-outside-jar-behind-shared", &[("T", Some("S"), &["M"]), ("S", None, &["M", "ext/Itf"]), ("M", None, &[])]),
+];
+
+fn shape_jar(shape: &ShapeD) -> JarD {
+	shape.1.iter().map(|(n, s, is)| ClsD { name: (*n).to_owned(), sup: Some(s.unwrap_or(JLO).to_owned()), itfs: is.iter().map(|i| (*i).to_owned()).collect(), methods: vec![] }).collect()
+}
+fn shape_hier(shape: &ShapeD) -> Hier {
+	let mut h = Hier { names: Vec::new(), parents: HashMap::new() };
+	for (n, s, is) in shape.1 {
+		h.names.push((*n).to_owned());
+		h.parents.insert((*n).to_owned(), s.iter().chain(is.iter()).map(|x| (*x).to_owned()).collect());
+	}
+	h
+}
+
+/// One world per (shape, erased type, flagged, position), after the demonstration of seed C15-G:
+/// ```txt
+/// <shape classes>;  class U {}  class Sub extends T {}
+/// class Base   { x(A) }                                   // Base<X extends A>
+/// class Holder extends Base { x(T);  synthetic [bridge] x(A) { this.x((T) a); } }
+/// ```
+/// calamus names every class `pkg/<name>`, `Base.x -> m_1`, `Holder.x(T) -> m_2`; the mappings name `pkg/Base.m_1 -> consume` and list
+/// `pkg/Holder` without methods, so that the delegate's entry `m_2 -> consume` in `pkg/Holder` is the observable rename.
+fn scenario_world(shape: &ShapeD, erased: &str, flagged: bool, ret: bool) -> World {
+	let mut main = shape_jar(shape);
+	main.push(ClsD { name: "U".into(), sup: Some(JLO.into()), itfs: vec![], methods: vec![] });
+	main.push(ClsD { name: "Sub".into(), sup: Some("T".into()), itfs: vec![], methods: vec![] });
+	let (db, ds) = if ret { (format!("(){}", obj(erased)), format!("(){}", obj("T"))) } else { (format!("({})V", obj(erased)), format!("({})V", obj("T"))) };
+	main.push(ClsD { name: "Base".into(), sup: Some(JLO.into()), itfs: vec![], methods: vec![plain_method("x", &db, 1)] });
+	let flags = 1 | SYN | if flagged { BRIDGE } else { 0 };
+	main.push(ClsD { name: "Holder".into(), sup: Some("Base".into()), itfs: vec![], methods: vec![
+		plain_method("x", &ds, 1),
+		MetD { name: "x".into(), desc: db.clone(), flags, code: Some(vec![InsD::Other, InsD::Other, InsD::Other, InsD::Inv('v', "Holder".into(), "x".into(), ds.clone()), InsD::Other]) },
+	] });
+	let pkg = |c: &str| -> String { if main.iter().any(|k| k.name == c) { format!("pkg/{c}") } else { c.to_owned() } };
+	let member = |desc: &str, a: &str, b: &str| GMember { desc: desc.to_owned(), names: vec![Some(a.to_owned()), Some(b.to_owned())], doc: None, params: vec![] };
+	let cal = GMappings { ns: vec!["official".into(), "intermediary".into()], doc: None, classes: main.iter().map(|c| GClass {
+		names: vec![Some(c.name.clone()), Some(pkg(&c.name))], doc: None, fields: vec![],
+		methods: match c.name.as_str() { "Base" => vec![member(&db, "x", "m_1")], "Holder" => vec![member(&ds, "x", "m_2")], _ => vec![] },
+	}).collect() };
+	let idb = map_desc_with(&db, &|c| pkg(c));
+	let map = GMappings { ns: vec!["intermediary".into(), "named".into()], doc: None, classes: vec![
+		GClass { names: vec![Some("pkg/Base".into()), Some("pkg/Base".into())], doc: None, fields: vec![], methods: vec![member(&idb, "m_1", "consume")] },
+		GClass { names: vec![Some("pkg/Holder".into()), Some("pkg/Holder".into())], doc: None, fields: vec![], methods: vec![] },
+	] };
+	World { main, libs: vec![], cal, map }
+}
+
+fn scenario_worlds(out: &mut Out) {
+	for shape in ANCESTOR_SHAPES {
+		let h = shape_hier(shape);
+		// every ancestor of the specialized type, then the controls: an unrelated jar class, a descendant (narrowing)
+		let mut erased: Vec<(String, &str)> = h.ancestors("T").into_iter().map(|a| (a, "ancestor")).collect();
+		erased.push(("U".to_owned(), "unrelated"));
+		erased.push(("Sub".to_owned(), "descendant"));
+		for (e, kind) in &erased {
+			for flagged in [false, true] {
+				for ret in [false, true] {
+					let w = scenario_world(shape, e, flagged, ret);
+					out.stats.hit("scenario:world");
+					out.stats.hit(&format!("scenario:shape:{}", shape.0));
+					out.stats.hit(&format!("scenario:erased-type:{kind}"));
+					out.stats.hit(if flagged { "scenario:flagged" } else { "scenario:unflagged" });
+					out.stats.hit(if ret { "scenario:return-position" } else { "scenario:param-position" });
+					let m = w.map.to_sexp();
+					emit_world(out, &w, m);
+				}
+			}
+		}
+	}
+}
+
+/// Hierarchies below a class: `get_descendants` decides which of two bridges for one delegate is recorded in
+/// `specialized_to_bridge` (`get_higher_method`). The children lists are in visiting order of the classes, so every
+/// visiting order is enumerated, with a flagged bridge in every pair of classes.
+const DESCENDANT_SHAPES: &[ShapeD] = &[
+	// `C2 extends C1 implements P`: `C2` is a child of `P` and of `C1`; `D` is only reached through `C1`
+	("down-diamond", &[("P", None, &[]), ("C1", Some("P"), &[]), ("C2", Some("C1"), &["P"]), ("D", Some("C1"), &[])]),
+	// `D` is reached through `C1` and through `C2`; `E` only through `C1`
+	("down-twice", &[("P", None, &[]), ("C1", None, &["P"]), ("C2", None, &["P"]), ("D", Some("C1"), &["C2"]), ("E", Some("C1"), &[])]),
+	("down-chain3", &[("P", None, &[]), ("C1", Some("P"), &[]), ("C2", Some("C1"), &[]), ("D", Some("C2"), &[])]),
+	("down-same-interface-again", &[("P", None, &[]), ("C1", None, &["P"]), ("C2", Some("C1"), &[]), ("D", Some("C2"), &["P"]), ("E", Some("C2"), &[])]),
+];
+
+fn permutations(n: usize) -> Vec<Vec<usize>> {
+	if n == 0 { return vec![vec![]]; }
+	let mut out = Vec::new();
+	for p in permutations(n - 1) { for i in 0..n { let mut q = p.clone(); q.insert(i, n - 1); out.push(q); } }
+	out
+}
+
+fn descendant_worlds(out: &mut Out) {
+	for shape in DESCENDANT_SHAPES {
+		let n = shape.1.len();
+		for p in permutations(n) {
+			for a in 0..n { for b in a + 1..n {
+				let mut jar: JarD = Vec::new();
+				for &i in &p {
+					let (name, sup, itfs) = shape.1[i];
+					let mut methods = Vec::new();
+					if i == a || i == b {
+						methods.push(MetD { name: "m".into(), desc: "(Ljava/lang/Object;)V".into(), flags: 1 | SYN | BRIDGE,
+							code: Some(vec![InsD::Inv('v', "P".into(), "impl".into(), "(LP;)V".into())]) });
+					}
+					if name == "P" { methods.push(plain_method("impl", "(LP;)V", 1)); }
+					jar.push(ClsD { name: name.into(), sup: Some(sup.unwrap_or(JLO).to_owned()), itfs: itfs.iter().map(|x| (*x).to_owned()).collect(), methods });
+				}
+				out.stats.hit("scenario:descendants");
+				out.stats.hit(&format!("scenario:descendants:{}", shape.0));
+				let j = jar_to(&jar);
+				out.op("s2b", &[j.clone()]);
+				out.op("oracle-higher", &[j]);
+			} }
+		}
+	}
 }
 
 /// exhaustive small scope: every flag combination x every body shape x every type relation, in a fixed three-level hierarchy
@@ -887,6 +1053,9 @@ fn tie_breaks(out: &mut Out) {
 
 fn gen(r: &mut Rng, tier: Tier, out: &mut Out) {
 	let rounds = if tier == Tier::Thorough { 12000 } else { 450 };
+	// the seed-independent scenario worlds first (their failures are the most readable ones)
+	scenario_worlds(out);
+	descendant_worlds(out);
 	truth_table(out);
 	tie_breaks(out);
 	for _ in 0..rounds {
